@@ -43,8 +43,10 @@ ASSUMPTIONS = [
 
 
 def norm_handler(d, h):
-    """normalised statements of a handler: rename packet variable, raise == raise e, drop 'from None'"""
+    """normalised statements of a handler: rename packet variable and the field-name
+    variable, raise == raise e, drop 'from None'"""
     out = []
+    d = _Renamed(d, dict(d.rename, **{D.field_name_var(d): 'FIELDNAME'}))
     for s in h.body:
         if isinstance(s, ast.Raise):
             if s.exc is None or (isinstance(s.exc, ast.Name) and s.exc.id == h.name):
@@ -56,6 +58,11 @@ def norm_handler(d, h):
         else:
             out.append(stmt_text(s))
     return out
+
+
+class _Renamed:
+    def __init__(self, d, rename):
+        self.rename = rename
 
 
 def check_skeletons(ctx):
@@ -278,8 +285,21 @@ def check_struct_block(ctx):
         ctx.undecided(rule, fi, fi.qual, 'expected one path, found %d' % len(paths), fi.node.lineno)
         return
     env = paths[0].env
+    # the locals that fill the fmt / lookup_fields holes of this generator's templates
+    roles = {}
+    for t in repo.templates():
+        if t.func.id == fi.id:
+            for hole in ('fmt', 'lookup_fields', 'advance'):
+                v = t.values.get(hole)
+                if v is not None:
+                    base = v
+                    while isinstance(base, ast.Subscript):
+                        base = base.value
+                    if isinstance(base, ast.Name):
+                        roles.setdefault(hole, base.id)
+    FMT, LF = roles.get('fmt', 'fmt'), roles.get('lookup_fields', 'lookup_fields')
     # fmt
-    fmt = env.get('fmt')
+    fmt = env.get(FMT)
     want_prefix = "('>' if %s else '<')" % BE
     st = 'fmt = %s' % (canon(fmt) if fmt is not None else None)
     ok = False
@@ -301,7 +321,7 @@ def check_struct_block(ctx):
     else:
         ctx.violation(rule, fi, st, 'the struct format is not prefix + codes', fi.node.lineno, clause='d')
     # lookup fields: same order over the same run
-    lf = env.get('lookup_fields')
+    lf = env.get(LF)
     st = 'lookup_fields = %s' % (canon(lf, {G: 'G'}) if lf is not None else None)
     oklf = False
     if isinstance(lf, ast.Call) and isinstance(lf.func, ast.Attribute) and lf.func.attr == 'join' and lf.args:
@@ -323,12 +343,12 @@ def check_struct_block(ctx):
         v = t.values
         st = '%s struct template holes' % ('unpack' if is_unpack else 'pack')
         bad = []
-        if 'fmt' not in v or canon(v['fmt']) != 'fmt':
+        if 'fmt' not in v or canon(v['fmt']) != FMT:
             bad.append('fmt hole is %s' % (canon(v['fmt']) if 'fmt' in v else 'missing'))
         if is_unpack:
-            if 'advance' not in v or canon(v['advance']) != 'struct.calcsize(fmt)':
+            if 'advance' not in v or canon(v['advance']) != 'struct.calcsize(%s)' % FMT:
                 bad.append('advance is %s, expected struct.calcsize(fmt)' % (canon(v['advance']) if 'advance' in v else 'missing'))
-            if 'lookup_fields' not in v or canon(v['lookup_fields']) != 'lookup_fields':
+            if 'lookup_fields' not in v or canon(v['lookup_fields']) != LF:
                 bad.append('targets are %s' % (canon(v['lookup_fields']) if 'lookup_fields' in v else 'missing'))
             body = t.tree.body
             txt = [stmt_text(s) for s in body]
@@ -342,7 +362,7 @@ def check_struct_block(ctx):
                 if not dec or canon(dec[0].value.args[0]) != "'__HOLE_fmt__'":
                     bad.append('StructUnpack is not called with the run format')
         else:
-            if 'lookup_fields' not in v or canon(v['lookup_fields']) not in ('lookup_fields[:(-1)]', 'lookup_fields'):
+            if 'lookup_fields' not in v or canon(v['lookup_fields']) not in ('%s[:(-1)]' % LF, LF):
                 bad.append('values are %s' % (canon(v['lookup_fields']) if 'lookup_fields' in v else 'missing'))
             calls = [n for n in ast.walk(t.tree) if isinstance(n, ast.Call) and canon(n.func) == 'fragments.append']
             if len(calls) != 1 or not (isinstance(calls[0].args[0], ast.Call) and canon(calls[0].args[0].func) == 'StructPack'
@@ -559,13 +579,18 @@ def check_comments(ctx):
         st = 'template %s@%d comments hole' % (t.func.qual.split('.')[-1], t.lineno)
         alone = all(l.strip() == '%(comments)s' for l in lines)
         src = canon(v) if v is not None else ''
-        from_map = 'self.sourcecode_by_field_name.get(' in src or src in ('comments.rstrip()',)
-        if src == 'comments.rstrip()':
-            # local 'comments' must come from the source map
-            fn = t.func.node
-            ok2 = any(isinstance(s, ast.Assign) and isinstance(s.targets[0], ast.Name) and s.targets[0].id == 'comments'
-                      and 'self.sourcecode_by_field_name.get(' in canon(s.value) for s in ast.walk(fn))
-            from_map = ok2
+        from_map = 'self.sourcecode_by_field_name.get(' in src
+        if not from_map and v is not None:
+            # resolve locals of the generator through its (single) path
+            try:
+                ps = repo.walker().paths(t.func.node, cls=t.func.cls)
+                from ..expr import subst
+                if len(ps) == 1:
+                    res = subst(v, {k: e for k, e in ps[0].env.items() if isinstance(k, str)})
+                    src = canon(res)
+                    from_map = 'self.sourcecode_by_field_name.get(' in src
+            except Undecided:
+                pass
         if alone and from_map:
             ctx.holds(rule, t.func, st, 'stands alone on a line; filled from the source map only', t.lineno, clause='f')
         else:
